@@ -766,6 +766,42 @@ type Case struct {
 	// names, nothing moved) — only generated by the rename-like unit.
 	RenameLike bool `json:"rename_like,omitempty"`
 	BaseFiles  int  `json:"base_files"`
+	// What git records about a file besides its contents. Exec[0] / Exec[1]:
+	// paths (Thrift files or the other file) committed with the executable
+	// bit (tree mode 100755 instead of 100644) in HEAD~ / HEAD; a path that is
+	// in one list only changes its mode between the commits. Packed: objects
+	// and refs are packed (git gc) before thriftbreak runs.
+	Exec   [2][]string `json:"exec,omitempty"`
+	Packed bool        `json:"packed,omitempty"`
+}
+
+// genGitAttrs draws the file modes and the storage form of the repository.
+func (g *gen) genGitAttrs(c *Case) {
+	var paths []string
+	seen := map[string]bool{}
+	for _, v := range [][]FileText{c.Old, c.New} {
+		for _, f := range v {
+			if !seen[f.Path] {
+				seen[f.Path] = true
+				paths = append(paths, f.Path)
+			}
+		}
+	}
+	paths = append(paths, otherFile)
+	// half of the cases keep plain 100644 everywhere
+	if g.chance(50, "modes_varied") {
+		for _, p := range paths {
+			switch g.uni(8, "mode_"+p) {
+			case 0, 1:
+				c.Exec[0], c.Exec[1] = append(c.Exec[0], p), append(c.Exec[1], p)
+			case 2:
+				c.Exec[0] = append(c.Exec[0], p)
+			case 3:
+				c.Exec[1] = append(c.Exec[1], p)
+			}
+		}
+	}
+	c.Packed = g.chance(20, "packed")
 }
 
 func genCase(t *rapid.T, renameLike bool) Case {
@@ -821,6 +857,7 @@ func genCase(t *rapid.T, renameLike bool) Case {
 	case 7:
 		c.Other = [2]string{"service Quux {}\n", ""} // a non-Thrift file is deleted
 	}
+	g.genGitAttrs(&c)
 	c.Edits = append([]string{}, g.edits...)
 	c.Expected = append([]Diag{}, g.expected...)
 	sort.Slice(c.Expected, func(i, j int) bool { return c.Expected[i].key() < c.Expected[j].key() })
